@@ -104,14 +104,15 @@ def render(n, style=None):
 # --------------------------------------------------------------------------
 
 
-def spell_version(rng, name, base, exact_micro=None):
+def spell_version(rng, name, base, exact_micro=None, p_long_pv=0.1):
     """One of the spellings of a version literal for variable ``name``."""
     major, minor = base
     if name == "python_version":
+        if rng.random() < p_long_pv:
+            return f"{major}.{minor}.0"
         opts = [f"{major}.{minor}"] * 6
         if minor == 0:
             opts += [f"{major}"] * 3
-        opts += [f"{major}.{minor}.0"]
         return rng.choice(opts)
     # python_full_version
     opts = [f"{major}.{minor}"] * 3 + [f"{major}.{minor}.0"] * 4
@@ -145,7 +146,7 @@ def gen_version_atom(rng, cfg):
         value = f"{major}.{minor}.*" if rng.random() < 0.8 else f"{major}.*"
         return atom(name, rng.choice(["==", "=="] + ["!="]), value, rng.random() < cfg["p_flip"])
     op = rng.choice(cfg["order_ops"])
-    value = spell_version(rng, name, base)
+    value = spell_version(rng, name, base, p_long_pv=cfg["p_long_pv"])
     if op == "~=" and "." not in value:
         # "~= 3" is rejected by packaging: keep as a natural failure at a low rate only
         if rng.random() > cfg["p_invalid"]:
@@ -341,10 +342,10 @@ FAULT_KINDS = ("KeyboardInterrupt", "MemoryError", "RecursionError")
 def gen_config(rng, fault_class=None):
     """Per-run swarm configuration. ``fault_class``: None = draw, True/False = force."""
     flavour = rng.choices(
-        ["mixed", "version", "string", "extras", "pv_pfv"], weights=[5, 4, 2, 1, 3])[0]
+        ["mixed", "version", "string", "extras", "pv_pfv", "groups"], weights=[5, 4, 2, 1, 3, 2])[0]
     if flavour == "version":
         kind_weights = [1.0, 0.0, 0.0]
-    elif flavour == "string":
+    elif flavour in ("string", "groups"):
         kind_weights = [0.0, 1.0, 0.0]
     elif flavour == "extras":
         kind_weights = [0.3, 0.3, 0.4]
@@ -369,10 +370,16 @@ def gen_config(rng, fault_class=None):
     order_ops = list(ORDER_OPS)
     if rng.random() < 0.3:
         order_ops = rng.sample(ORDER_OPS, k=rng.choice([2, 3, 4]))
+    if flavour == "groups":
+        # one variable, one of ==/!=: multi-valued ==/!= groups build up, get widened, narrowed and compared
+        string_vars = string_vars[:1]
+        string_ops = [rng.choice(["==", "!="])] if rng.random() < 0.7 else ["==", "!="]
     faults_on = (rng.random() < 0.5) if fault_class is None else bool(fault_class)
     fault_kinds = [k for k in FAULT_KINDS if rng.random() < 0.7] or [rng.choice(FAULT_KINDS)]
     rewrites = [w for w in REWRITES if rng.random() < 0.75] or ["flip"]
+    marathon = rng.random() < 0.02
     cfg = {
+        "marathon": marathon,
         "flavour": flavour,
         "kind_weights": kind_weights,
         "bases": bases,
@@ -385,9 +392,10 @@ def gen_config(rng, fault_class=None):
         "p_combo": rng.choice([0.35, 0.5, 0.5, 0.7]),
         "p_reparse": rng.choice([0.05, 0.12, 0.12, 0.3]),
         "roundtrip": rng.random() < 0.25,
-        "p_echo": rng.choice([0.0, 0.0, 0.15, 0.35]),
+        "p_echo": rng.choice([0.0, 0.15, 0.35, 0.6]),
         "order_ops": order_ops,
         "p_flip": rng.choice([0.0, 0.15, 0.3, 0.5]),
+        "p_long_pv": rng.choice([0.1, 0.1, 0.5]),
         "p_invalid": rng.choice([0.0, 0.0, 0.3]),
         "p_single": rng.choice([0.25, 0.4, 0.6]),
         "p_nest": rng.choice([0.0, 0.25, 0.5]),
@@ -408,6 +416,19 @@ def gen_config(rng, fault_class=None):
         "shims": rng.random() < 0.5,
         "style": {"q": rng.choice(['"', '"', "'"]), "sp": rng.random() < 0.15, "par": rng.random() < 0.2},
     }
+    if marathon:
+        # a long-running process: hundreds of operations over a somewhat wider literal pool, so that
+        # size thresholds, evictions and table rebuilds of any memo are reached
+        cfg["ops_per_client"] = rng.choice([30, 45, 60])
+        cfg["n_victims"] = 2
+        cfg["n_aggressors"] = rng.choice([1, 2])
+        cfg["p_combo"] = 0.6
+        cfg["max_atoms"] = rng.choice([4, 5, 6])
+        cfg["p_single"] = 0.25
+        extra_bases = [b for b in VERSION_BASES if b not in cfg["bases"]]
+        cfg["bases"] = cfg["bases"] + rng.sample(extra_bases, k=min(3, len(extra_bases)))
+        cfg["string_vars"] = sorted(set(cfg["string_vars"]) | set(rng.sample(sorted(STRING_VARS), k=3)))
+        cfg["fault_rate"] = cfg["fault_rate"] / 3
     return cfg
 
 
